@@ -563,7 +563,8 @@ class Krylov(ApiImmut):
         n = H.shape[0]
         herm = float(np.max(np.abs(H - H.conj().T))) <= 1e-12 * max(float(np.max(np.abs(H))), 1e-300)
         xv = vec(x0)
-        if not herm or abs(np.linalg.norm(xv) - 1) > 1e-10:
+        nx = float(np.linalg.norm(xv))
+        if not herm or nx <= 1e-200:
             c.skip('krylov_precondition_not_met')
             return
         if int(v['dimension']) < n or v['threshold'] > 1e-10 or v['max_rank'] < max(max_ranks(x0.row_dims, [1] * x0.order)):
@@ -575,9 +576,13 @@ class Krylov(ApiImmut):
         if v['normalize'] > 0:
             y = y / lib_norm(y, v['normalize'])
         got = vec(res)
-        err = float(np.linalg.norm(got - y))
-        tags = (['complex'] if np.iscomplexobj(H) else [])
-        c.check(self.api, 'exact_with_full_krylov_space', err <= 1e-9, tags, {'err': err, 'n': n, 'h': v['step_size'], 'dims': list(op.row_dims)}, prop=P11)
+        # (relative to the norm of the exact state: the equation is linear, an initial state of any norm is admissible; cores of very
+        # different scale cost digits in every TT sum, in proportion to the imbalance)
+        from .dense import core_scale
+        err = float(np.linalg.norm(got - y)) / max(float(np.linalg.norm(y)), 1e-300)
+        imb = max(1.0, core_scale(x0.cores) / nx, nx, 1.0 / nx)
+        tags = (['complex'] if np.iscomplexobj(H) else []) + (['unit_norm'] if abs(nx - 1) <= 1e-10 else ['other_norm'])
+        c.check(self.api, 'exact_with_full_krylov_space', err <= 1e-9 * max(1.0, 1e-4 * imb), tags, {'err': err, 'n': n, 'h': v['step_size'], 'dims': list(op.row_dims)}, prop=P11)
         c.events['krylov_err_log10_sum_x10'] += int(round(10 * np.log10(max(err, 1e-17))))
         c.events['krylov_n'] += 1
         c.sig(self.api, list(op.row_dims), bool(np.iscomplexobj(H)), int(v['dimension']))
